@@ -5,11 +5,13 @@ import NeoFS.Driver.Grace
 import NeoFS.Driver.Arith
 import NeoFS.Driver.Timers
 import NeoFS.Driver.Gov
+import NeoFS.Driver.Meta
 open NeoFS NeoFS.Driver
 
 /-- State of all stateful models; pure models need none. -/
 structure DState where
   timers : NeoFS.Timers.ET := NeoFS.Timers.new []
+  metaSt : NeoFS.Driver.MetaState := {}
 
 def stepLine (s : DState) (line : String) : DState × String :=
   let o := parseOp line
@@ -21,6 +23,7 @@ def stepLine (s : DState) (line : String) : DState × String :=
   | "grace" => (s, graceStep o)
   | "arith" => (s, arithStep o)
   | "gov" => (s, govStep o)
+  | "meta" => let (m, out) := metaStep s.metaSt o; ({ s with metaSt := m }, out)
   | "timers" => let (t, out) := timersStep s.timers o; ({ s with timers := t }, out)
   | _ => (s, "=> bad-op")
 
